@@ -363,6 +363,10 @@ func (e *Env) unary(x *ast.UnaryExpr, t types.Type) Value {
 			return e.unknown(t, "neg")
 		}
 		r := Sub(IntLit(0), v.T)
+		if lo, _, ok := intRange(t); ok && !isUnsigned(t) {
+			// integers are mathematical in the model: the one negation that wraps in the machine must not occur
+			e.panicCheck(Gt(v.T, Lit(lo, SInt)), "negoverflow", "negation of the most negative value (wraps to itself)", x.Pos())
+		}
 		if isUnsigned(t) {
 			_, hi, _ := intRange(t)
 			m := Add(Lit(hi, SInt), IntLit(1))
@@ -448,10 +452,13 @@ func (e *Env) binary(x *ast.BinaryExpr, t types.Type) Value {
 	case token.GEQ:
 		return Value{K: VBool, T: Ge(a, b), Typ: t}
 	case token.ADD:
+		e.overflowCheck(Add(a, b), t, x.Pos())
 		return Value{K: VInt, T: e.wrap(Add(a, b), t), Typ: t}
 	case token.SUB:
+		e.overflowCheck(Sub(a, b), t, x.Pos())
 		return Value{K: VInt, T: e.wrap(Sub(a, b), t), Typ: t}
 	case token.MUL:
+		e.overflowCheck(Mul(a, b), t, x.Pos())
 		return Value{K: VInt, T: e.wrap(Mul(a, b), t), Typ: t}
 	case token.QUO:
 		e.panicCheck(Ne(b, IntLit(0)), "div", "division by zero", x.Pos())
@@ -847,4 +854,14 @@ func (e *Env) orderCmp(op token.Token, l, r Value, t types.Type) (*Term, bool) {
 		return ba, true
 	}
 	return nil, false
+}
+
+// overflowCheck: signed integers are mathematical in the model; the machine result is the same only if it is in
+// the range of the type. Checked where the no-panic sweep runs (C11), assumed elsewhere.
+func (e *Env) overflowCheck(r *Term, t types.Type, pos token.Pos) {
+	lo, hi, ok := intRange(t)
+	if !ok || isUnsigned(t) {
+		return
+	}
+	e.panicCheck(And(Le(Lit(lo, SInt), r), Le(r, Lit(hi, SInt))), "overflow", "signed arithmetic stays in the range of its type", pos)
 }
